@@ -1,5 +1,6 @@
 //! Reference models and generators. This crate must never depend on pilota.
 pub mod faults;
+pub mod pb;
 pub mod rng;
 pub mod schema;
 pub mod tcodec;
